@@ -13,7 +13,7 @@ Protocol (one op per line; the first line of a case is `cfg`):
                                                           renew(), renew(reset_errors=r, amount=n), trigger_apoptosis(reason="x")
   tickb | ticki c | renewi n r                           arguments of an unusual but legal TYPE: tick(True), tick(IntSubclass(c)),
                                                           renew(IntSubclass(n), r as the int 0/1)
-  set thr n | set allow 0|1 | set life q|none | set idle q|none    a public configuration attribute is re-assigned on the live
+  set thr n | set allow 0|1 | set life q|none | set idle q|none | set max n    a public configuration attribute is re-assigned on the live
                                                           lifecycle (search/correspondence only: outside the quantifier)
   many n <op>                                            the op (err, hb, tick c, tickd, timeouts, start, renew n r, renewd) n times
                                                           (1..3000), only the last observation is shown: fills the event log to
@@ -353,8 +353,11 @@ class C09(Prop):
                 lines.append(f"many {n_} " + rng.choice(["err", "err", "err", "hb", "tick 0", "tick 1", "timeouts", "start",
                                                         "renew 1 0", "renew none 1", "renewd", "tickd"]))
             elif op == "set":
-                what = rng.choice(["thr", "thr", "allow", "allow", "life", "idle"])
-                if what == "thr":
+                what = rng.choice(["thr", "thr", "allow", "allow", "life", "idle", "max"])
+                if what == "max":
+                    v = rng.choice([mm, mm + 1, mm + 4, 2 * mm + 1])      # raised (or re-assigned to the same value)
+                    mcur[cur] = v
+                elif what == "thr":
                     v = rng.choice([0, 1, 2, 3, 4, 100])
                 elif what == "allow":
                     v = rng.choice([0, 1])
@@ -441,6 +444,9 @@ class C09(Prop):
                 cases3.append({"lines": [cfg, "tick 1", f"adv {g}", "hb", "timeouts", "tickd"], "note": "exhaustive time gaps"})
                 cases3.append({"lines": [cfg, "start", f"adv {g // 2}", "hb", f"adv {g - g // 2}", "timeouts", "tick 1"],
                                "note": "exhaustive time gaps"})
+                # retired by a time limit (or not), renewed, checked again: a renewal does not give a new lifetime
+                cases3.append({"lines": [cfg, "start", f"adv {g}", "timeouts", "renew none 1", "timeouts", "adv 1", "timeouts"],
+                               "note": "exhaustive time gaps"})
         # two overlapping calls: every ordered pair of mutators, A held back before its first / second lock acquisition,
         # on a NASCENT / ACTIVE / SENESCENT / APOPTOTIC lifecycle, followed by a tick
         cases4 = []
@@ -457,7 +463,7 @@ class C09(Prop):
                  "cases": cases4},
                 {"name": "time limits x clock gaps (0, 1 us, limit-1/limit/limit+1, a day-1/a day/a day+1, whole days plus a "
                          "remainder below/on/above the limit, a week, a month; limits below and above one day), lifetime / idle, "
-                         "with and without activity after the gap", "cases": cases3},
+                         "with and without activity after the gap, and limit -> renewal -> limit again", "cases": cases3},
                 {"name": "all op sequences over a 12-op alphabet, (configuration, max length) = "
                          + "; ".join(f"({c[4:]}, {d})" for c, d in plan), "cases": cases},
                 {"name": "two lifecycles interleaved with resets, all sequences over a 7-op alphabet (tick/err/rst/renew/start/"
@@ -589,7 +595,9 @@ class C09(Prop):
         mode["tags"] = tags
         mode["ended"] = []
         lock.tags = tags
-        wd = max(self.watchdog_s, 0.5)
+        # the interleaving is driven by events, not by time; the waits below only end early on a tree whose calls really hang.
+        # Generous until the first genuine hang was seen (an overloaded machine must not turn into a different interleaving).
+        wd = 15.0 if not getattr(self, "watchdog_hangs", 0) else max(self.watchdog_s, 0.5)
 
         def body(name, fn, done):
             me = threading.get_ident()
@@ -738,8 +746,9 @@ class C09(Prop):
                 fn = lambda: obj.renew(reset_errors=t[2] in ("1", "true", "True"), amount=None if t[1] == "none" else int(t[1]))
             elif t == ["apor"]:
                 fn = lambda: obj.trigger_apoptosis(reason="requested")
-            elif len(t) == 3 and t[0] == "set" and t[1] in ("thr", "allow") and _num(t[2]) is not None:
+            elif len(t) == 3 and t[0] == "set" and t[1] in ("thr", "allow", "max") and _num(t[2]) is not None:
                 fn = ((lambda: setattr(obj, "error_threshold", int(t[2]))) if t[1] == "thr"
+                      else (lambda: setattr(obj, "max_operations", int(t[2]))) if t[1] == "max"
                       else (lambda: setattr(obj, "allow_renewal", t[2] == "1")))
             elif len(t) == 3 and t[0] == "set" and t[1] in ("life", "idle") and (t[2] == "none" or _num(t[2]) is not None):
                 td = self.T.timedelta
@@ -929,6 +938,8 @@ class C09(Prop):
                 # a public configuration attribute re-assigned on the live lifecycle: later calls are judged by the new value
                 if t[1] == "thr":
                     r["thr"] = int(t[2])
+                elif t[1] == "max":
+                    r["maxo"] = int(t[2])     # (the generator only RAISES it: lowering it below the length breaks the bound at once)
                 elif t[1] == "allow":
                     r["allow"] = t[2] == "1"
                 elif t[1] == "life":
@@ -1001,7 +1012,8 @@ class C09(Prop):
             # ---- bounds
             if not (0 <= ln <= maxo):
                 V("length_in_bounds", f"0 <= length <= {maxo}", f"{ln} after {line!r}", i)
-            if op == "tick" and t[1] == "1" and ret == "1":
+            if op == "tick" and t[1] == "1" and ret == "1" and not (auto and allow):
+                # (a tick during which the auto-renewing callback renewed straddles the renewal: it belongs to neither stretch)
                 r["unit_true"] += 1
                 if r["unit_true"] > maxo:
                     V("hayflick", f"at most {maxo} unit ticks report True between renewals", str(r["unit_true"]), i)
